@@ -12,7 +12,9 @@
    pair (state column, mean/covariance blocks): the prediction replaces the states
    only, copies and resampling carry the whole particle. *)
 Require Import Reals ZArith QArith List Lra Lia.
+Require Import BFL.C13_Model.
 Require Import BFL.Ops BFL.ListOps BFL.C07_Model BFL.C07_ROps BFL.C07_Proofs BFL.C06_Model BFL.C06_Proofs.
+Require Import BFL.C06_Cmd BFL.C06_CmdProofs.
 Import ListNotations.
 Local Open Scope R_scope.
 
@@ -112,6 +114,123 @@ Theorem C06_step_sites_positive (st : @sis_state ROps St Aux) (ev : @event ROps 
   0 < INR N.
 Proof. exact (step_sites_positive St Aux N dl dc Npos st ev). Qed.
 
+(* ------------------------------------------------------------------------------------------------
+   THE COMMAND LEVEL (C06_Cmd.v): "for every history of measurements, failed measurement acquisitions
+   and skip commands", literally.  A history is a list of items: IStep ce = the raw commands
+   filter.skip(name, status) issued before a step (any names, any order, not necessarily matched
+   pairs), then one filtering step whose skip flags and state-model branch are READ from the flag state
+   the dispatch of C13_Model leaves (with or without exogenous model: have); IReset = FilteringAlgorithm::reset()
+   followed by a new initialisation.  hist_mid / hist_after = the step after the history `its`, before its
+   resampling test / at its end; hist_cmds = every raw command issued up to and including those of the step.
+   rule_* = "status of the last command that touches the flag" evaluated on the raw commands.
+   ------------------------------------------------------------------------------------------------ *)
+
+(* invariant after every item: both sets are fine after every step; after a reset the predicted (= freshly
+   initialised) set is, and so is the corrected set as soon as a step has run *)
+Theorem C06_cmd_inv_every_step (have : bool) (st0 : @sis_state ROps St Aux) (its : list (@item ROps St Aux)) :
+  step st0 = 0%nat -> set_ok (pred st0) -> Forall (wf_item St Aux N) its ->
+  Forall2 (fun it cs' => (set_ok (pred (c_sis cs')) /\ (step (c_sis cs') <> 0%nat -> set_ok (cor (c_sis cs')))) /\
+                         (is_step St Aux it = true -> set_ok (pred (c_sis cs')) /\ set_ok (cor (c_sis cs'))))
+          its (cmd_trace N (hist_start have st0) its).
+Proof. exact (fun H0 G0 => cmd_inv_statement St Aux N dl dc Npos have st0 H0 G0 its). Qed.
+
+Theorem C06_cmd_inv_after_step (have : bool) (st0 : @sis_state ROps St Aux) (its : list (@item ROps St Aux)) (ce : @cevent ROps St) :
+  step st0 = 0%nat -> set_ok (pred st0) -> Forall (wf_item St Aux N) its -> wf_cev St N ce ->
+  set_ok (pred (hist_after N have st0 its ce)) /\ set_ok (cor (hist_after N have st0 its ce)).
+Proof. exact (fun H0 G0 => cmd_inv_after St Aux N dl dc Npos have st0 H0 G0 its ce). Qed.
+
+(* the flags a step runs under are the dispatch of ALL raw commands so far from a fresh filter, and they obey the rule *)
+Theorem C06_cmd_flags_by_rule (have : bool) (st0 : @sis_state ROps St Aux) (its : list (@item ROps St Aux)) (ce : @cevent ROps St) :
+  hist_flags N have st0 its ce = final (hist_cmds its ce) (init have) /\
+  f_pred (hist_flags N have st0 its ce) = rule_pred_skipped have (hist_cmds its ce) /\
+  f_corr (hist_flags N have st0 its ce) = rule_corr_skipped (hist_cmds its ce).
+Proof. exact (conj (hist_flags_final St Aux N have st0 its ce) (hist_flags_rule St Aux N have st0 its ce)). Qed.
+
+(* measurement available, the last command touching the correction (if any) says "off", likelihood valid:
+   every weight is multiplied by that particle's likelihood (+ tiny) before normalisation *)
+Theorem C06_cmd_reweight (have : bool) (st0 : @sis_state ROps St Aux) (its : list (@item ROps St Aux)) (ce : @cevent ROps St) (l : list R) :
+  step st0 = 0%nat -> set_ok (pred st0) -> Forall (wf_item St Aux N) its ->
+  rule_corr_skipped (hist_cmds its ce) = false -> ce_freeze ce = true -> ce_lik ce = Some l ->
+  length l = N -> Forall (fun x => 0 <= x) l ->
+  forall i, (i < N)%nat ->
+  let lwp := s_lw (pred (hist_mid N have st0 its ce)) in
+  exp (nth i (s_lw (cor (hist_mid N have st0 its ce))) 0)
+  = exp (nth i lwp 0) * (nth i l 0 + Rtiny) / sumR (map (fun p => exp (fst p) * (snd p + Rtiny)) (combine lwp l)).
+Proof. exact (fun H0 G0 => cmd_reweight St Aux N dl dc Npos have st0 H0 G0 its ce l). Qed.
+
+(* acquisition fails: corrected = predicted, whatever has been commanded *)
+Theorem C06_cmd_no_measurement (have : bool) (st0 : @sis_state ROps St Aux) (its : list (@item ROps St Aux)) (ce : @cevent ROps St) :
+  ce_freeze ce = false -> cor (hist_mid N have st0 its ce) = pred (hist_mid N have st0 its ce).
+Proof. exact (cmd_no_measurement St Aux N have st0 its ce). Qed.
+
+(* measurement acquired but the correction is commanded off, or the likelihood is invalid: corrected = predicted
+   (the normalisation premise of C06_no_usable_likelihood is discharged by the invariant of the history) *)
+Theorem C06_cmd_no_usable_likelihood (have : bool) (st0 : @sis_state ROps St Aux) (its : list (@item ROps St Aux)) (ce : @cevent ROps St) :
+  step st0 = 0%nat -> set_ok (pred st0) -> Forall (wf_item St Aux N) its -> wf_cev St N ce -> ce_freeze ce = true ->
+  (rule_corr_skipped (hist_cmds its ce) = true \/ ce_lik ce = None) ->
+  cor (hist_mid N have st0 its ce) = pred (hist_mid N have st0 its ce).
+Proof. exact (fun H0 G0 => cmd_no_usable_likelihood St Aux N dl dc Npos have st0 H0 G0 its ce). Qed.
+
+(* the prediction, from the commands: none at step 0; the corrected set itself when the rule says "skipped"; otherwise
+   weights copied, means/covariances of the output object kept, states moved by the branch of propagate the commands select
+   (state + exogenous, state only, exogenous only: the two non-writing branches are never reached) *)
+Theorem C06_cmd_prediction (have : bool) (st0 : @sis_state ROps St Aux) (its : list (@item ROps St Aux)) (ce : @cevent ROps St) :
+  step st0 = 0%nat -> set_ok (pred st0) -> Forall (wf_item St Aux N) its ->
+  let st := c_sis (hist_state N have st0 its) in
+  let cmds := hist_cmds its ce in
+  (step st = 0%nat -> pred (hist_mid N have st0 its ce) = pred st) /\
+  (step st <> 0%nat -> rule_pred_skipped have cmds = true -> pred (hist_mid N have st0 its ce) = cor st) /\
+  (step st <> 0%nat -> rule_pred_skipped have cmds = false ->
+     s_lw (pred (hist_mid N have st0 its ce)) = s_lw (cor st) /\
+     map fst (s_parts (pred (hist_mid N have st0 its ce))) = mapi_from (ce_motion ce (rule_mode have cmds)) 0 (map fst (s_parts (cor st))) /\
+     map snd (s_parts (pred (hist_mid N have st0 its ce))) = map snd (s_parts (pred st)) /\
+     s_lin (pred (hist_mid N have st0 its ce)) = s_lin (pred st) /\ s_circ (pred (hist_mid N have st0 its ce)) = s_circ (pred st) /\
+     (rule_mode have cmds = MFull \/ rule_mode have cmds = MStateOnly \/ rule_mode have cmds = MExoOnly)).
+Proof. exact (fun H0 G0 => cmd_prediction St Aux N dl dc Npos have st0 H0 G0 its ce). Qed.
+
+(* resampling runs exactly when neff < N/3 of the corrected weights, after which the weights are uniform *)
+Theorem C06_cmd_resample_iff (have : bool) (st0 : @sis_state ROps St Aux) (its : list (@item ROps St Aux)) (ce : @cevent ROps St) :
+  let m := hist_mid N have st0 its ce in
+  (needs_resampling N (cor m) = true <-> neff ROps (s_lw (cor m)) < INR N / 3) /\
+  (needs_resampling N (cor m) = true ->
+     cor (hist_after N have st0 its ce) = resampled (cor m) (ce_u1 ce) /\
+     (wf_set St Aux N dl dc (cor m) -> s_lw (cor (hist_after N have st0 its ce)) = repeat (- ln (INR N)) N)) /\
+  (needs_resampling N (cor m) = false -> cor (hist_after N have st0 its ce) = cor m) /\
+  pred (hist_after N have st0 its ce) = pred m /\
+  step (hist_after N have st0 its ce) = Datatypes.S (step (c_sis (hist_state N have st0 its))).
+Proof. exact (cmd_resample_iff St Aux N dl dc have st0 its ce). Qed.
+
+Theorem C06_cmd_resampled_uniform (have : bool) (st0 : @sis_state ROps St Aux) (its : list (@item ROps St Aux)) (ce : @cevent ROps St) :
+  step st0 = 0%nat -> set_ok (pred st0) -> Forall (wf_item St Aux N) its -> wf_cev St N ce ->
+  needs_resampling N (cor (hist_mid N have st0 its ce)) = true ->
+  s_lw (cor (hist_after N have st0 its ce)) = repeat (- ln (INR N)) N.
+Proof. exact (fun H0 G0 => cmd_resampled_uniform St Aux N dl dc Npos have st0 H0 G0 its ce). Qed.
+
+(* from the second step of a pass on (not right after a reset), a failed acquisition leaves corrected = predicted at the END of the step:
+   no resampling is pending after any step of any history *)
+Theorem C06_cmd_no_measurement_end_of_step (have : bool) (st0 : @sis_state ROps St Aux) (its : list (@item ROps St Aux)) (ce : @cevent ROps St) :
+  step st0 = 0%nat -> set_ok (pred st0) -> Forall (wf_item St Aux N) its ->
+  step (c_sis (hist_state N have st0 its)) <> 0%nat -> ce_freeze ce = false ->
+  cor (hist_after N have st0 its ce) = pred (hist_after N have st0 its ce).
+Proof. exact (fun H0 G0 => cmd_no_measurement_end_of_step St Aux N dl dc Npos have st0 H0 G0 its ce). Qed.
+
+(* un-matched pairs: after skip("all", false) a step runs exactly as on a filter that never received a command,
+   whatever was commanded before (skip(correction, on) ... skip(all, off) leaves nothing skipped) *)
+Theorem C06_cmd_all_off_nothing_skipped (have : bool) (cs : list cmd) (ce : @cevent ROps St) :
+  event_of (final (cs ++ [(NAll, false)]) (init have)) ce = event_of (init have) ce /\
+  ev_skip_pred (event_of (init have) ce) = false /\ ev_skip_corr (event_of (init have) ce) = false /\
+  ev_pred (event_of (init have) ce) = ce_motion ce (if have then MFull else MStateOnly).
+Proof. exact (conj (cmd_all_off_event St have cs ce) (cmd_fresh_event St have ce)). Qed.
+
+(* the function the driver runs and prints (cmd_trace_full): its second components are cmd_trace, and its k-th report
+   is that of the k-th item on the state the items before it lead to *)
+Theorem C06_cmd_trace_full_bridge (its : list (@item ROps St Aux)) (cs : @cstate ROps St Aux) :
+  map snd (cmd_trace_full N cs its) = cmd_trace N cs its /\
+  forall k r cs', nth_error (cmd_trace_full N cs its) k = Some (r, cs') ->
+    exists it, nth_error its k = Some it /\
+               r = step_report N (cmd_run N cs (firstn k its)) it /\ cs' = item_step N (cmd_run N cs (firstn k its)) it.
+Proof. exact (conj (cmd_trace_full_bridge St Aux N its cs) (cmd_trace_full_components St Aux N its cs)). Qed.
+
 End C06.
 
 (* the hypotheses are satisfiable, and the executable model on exact rationals: N = 3, one linear +
@@ -133,6 +252,17 @@ Example C06_concrete_Q :
   (step st, s_lin (cor st), s_circ (cor st), s_parts (pred st)) = (2%nat, 1%nat, 1%nat, [(7, 0); (9, 1); (11, 2)]%nat).
 Proof. vm_compute. reflexivity. Qed.
 
+(* command level on exact rationals: skip(correction, on) before step 0, skip(all, off) before step 1: the flags
+   are those of a fresh filter again, every command was answered true, an unknown name is answered false *)
+Example C06_cmd_concrete_Q :
+  let s := @mkSset QOps nat nat 1 1 [(7, 0); (8, 1); (9, 2)]%nat [1#3; 1#3; 1#3]%Q in
+  let ce c := @mkCEvent QOps nat c false None (fun _ i x => (x + i)%nat) (1#10)%Q in
+  let tr := cmd_trace_full 3 (hist_start true (@mkSis QOps nat nat 0 s s))
+              [IStep (ce [(NCorrection, true); (NState, true)]); IStep (ce [(NAll, false); (NOther, true)])] in
+  (map (fun x => c_flags (snd x)) tr, map (fun x => option_map (fun r => fst (fst r)) (fst x)) tr)
+  = ([mkFlags false false true (Some false) true; init true], [Some [Ok true; Ok true]; Some [Ok true; Ok false]]).
+Proof. vm_compute. reflexivity. Qed.
+
 Print Assumptions C06_inv_every_step.
 Print Assumptions C06_inv.
 Print Assumptions C06_ln_args_positive.
@@ -145,3 +275,15 @@ Print Assumptions C06_no_usable_likelihood.
 Print Assumptions C06_settled_after_step.
 Print Assumptions C06_no_measurement_end_of_step.
 Print Assumptions C06_step_sites_positive.
+Print Assumptions C06_cmd_inv_every_step.
+Print Assumptions C06_cmd_inv_after_step.
+Print Assumptions C06_cmd_flags_by_rule.
+Print Assumptions C06_cmd_reweight.
+Print Assumptions C06_cmd_no_measurement.
+Print Assumptions C06_cmd_no_usable_likelihood.
+Print Assumptions C06_cmd_prediction.
+Print Assumptions C06_cmd_resample_iff.
+Print Assumptions C06_cmd_resampled_uniform.
+Print Assumptions C06_cmd_no_measurement_end_of_step.
+Print Assumptions C06_cmd_all_off_nothing_skipped.
+Print Assumptions C06_cmd_trace_full_bridge.
